@@ -1,6 +1,7 @@
 /- Driver ops for RobotWarehouse: robot_warehouse.{state,step,judge,instance} -/
 import JumanjiModel.Bridge.Json
 import JumanjiModel.Env.RobotWarehouse.Model
+import JumanjiModel.Env.RobotWarehouse.Bounds
 open Lean Jb
 
 namespace Jb.RobotWarehouse
@@ -140,7 +141,18 @@ def opInstance : Op := fun j => do
                     decide ((s.shelves.getD k default).requested = 1) == s.queue.contains (k : Int)))),
               ("reset_obs_ok", jBool (decide (resetObs cfg s = observe cfg s)))])
 
+/-- C01: {cfg} → {leaf path: {"lo": rat|null, "hi": rat|null}} = `obsBounds cfg` (the intervals of
+`Props.C01.robot_warehouse_step_obs_in_bounds`) -/
+def jBounds (bs : List (String × Option Rat × Option Rat)) : Json :=
+  jObj (bs.map (fun b => (b.1, jObj [("lo", match b.2.1 with | some r => jRat r | none => .null),
+                                      ("hi", match b.2.2 with | some r => jRat r | none => .null)])))
+
+def opBounds : Op := fun j => do
+  let cfg ← getCfg (← field j "cfg")
+  pure (jBounds (obsBounds cfg))
+
 def ops : List (String × Op) :=
   [("robot_warehouse.state", opState), ("robot_warehouse.step", opStep),
-   ("robot_warehouse.judge", opJudge), ("robot_warehouse.instance", opInstance)]
+   ("robot_warehouse.judge", opJudge), ("robot_warehouse.instance", opInstance),
+   ("robot_warehouse.bounds", opBounds)]
 end Jb.RobotWarehouse
